@@ -63,7 +63,7 @@ Mechanisms: {mech}
 YOUR TASK: make ONE small, realistic source change to the library (the kind of slip a maintainer could make in a refactor, an optimisation, a port from C++, or a boundary condition) such that
  1. the crate still compiles, and the ENTIRE existing test suite still passes unedited (`cargo test --offline` in /tmp/seed_{sid}: all tests green — verify this yourself at the end);
  2. the property above is violated for some inputs — and the violation needs SOMETHING SPECIFIC to manifest: a particular kind of input (an unusual but legal font feature combination, a specific cluster numbering, direction, flag, buffer history, text length, script, a multi-step sequence of API calls, two code sites that each look fine alone …), not something ordinary use would expose at once;
- 3. you can DEMONSTRATE it: write a small self-contained demonstration that uses only the crate's public API (a Rust example file `examples/seed_demo.rs` in the worktree, run with `cargo run --offline --example seed_demo`; it may read fonts from `tests/fonts/...` of the worktree or build font bytes in memory) which exits 0 / prints PASS on the ORIGINAL code and exits non-zero / prints FAIL with your change. Check both directions yourself (use `git stash` / `git diff > patch; git checkout -- src; ...; git apply patch` inside YOUR worktree only).
+ 3. you can DEMONSTRATE it: write a small self-contained demonstration that uses only the crate's public API (a Rust example file `examples/seed_demo.rs` in the worktree, run with `cargo run --offline --example seed_demo`; it may read fonts from `tests/fonts/...` of the worktree or build font bytes in memory) which exits 0 / prints PASS on the ORIGINAL code and exits non-zero / prints FAIL with your change. Check both directions yourself (use `git diff -- src > /tmp/seed_out/{sid}/p.diff; git checkout -- src; ...; git apply /tmp/seed_out/{sid}/p.diff` inside YOUR worktree only; do NOT use `git stash`: the stash is shared by all worktrees of the repository and other agents are working in theirs).
 Prefer a change in the code the property is anchored in (see the file list in the property text), but any place that breaks the property is fine. Avoid changes that merely crash on every input or break obviously common cases (the suite would catch those anyway). Subtle is better than big; semantic is better than syntactic.
 
 DELIVERABLES in /tmp/seed_out/{sid}:
